@@ -107,3 +107,33 @@ Proof.
   { exists [LOffer 0 3; LRead; LOffer 1 4]. split; [repeat constructor; simpl; intros; lia|vm_compute; reflexivity]. }
   vm_compute. auto.
 Qed.
+
+(* ---- C02-FAULTY-WAITER-STEALS-WAKEUP: with block_on_overflow on a persistent queue, a parked producer whose
+   request cannot be stored (Marshal / storage-write error) consumes the wake-up token it receives and returns its
+   error WITHOUT passing the wake-up on (putInternal's error paths do not Signal).  Two such producers swallow the
+   two Signals of the draining queue (size reset in Read, OnDone); producer 3, whose request fits, stays parked for
+   ever on an empty, idle queue although every request offered fits the capacity. *)
+Definition fw_cfg : cfg := {| kind := Pers; cap := 2; blocking := true; wfr := false |}.
+Definition fw_trace : list label :=
+  [LOffer 0 2; LOfferF 1 1 c_marshal; LOfferF 2 1 c_storeerr; LOffer 3 1; LRead; LSelTok 1; LRelockTok 1;
+   LDone 0 0; LSelTok 2; LRelockTok 2].
+
+Lemma faulty_waiter_steals_wakeup_refuted_l :
+  exists c s, kind c = Pers /\ blocking c = true /\ run c init fw_trace = Some s /\
+    Forall (fit_label c) fw_trace /\
+    quiescent c s /\ lock s = Free /\ size s = 0 /\ items s = [] /\ inflight s = [] /\ tok s = false /\
+    waiting s = 1 /\ hand s = [0%nat] /\ fin s = [(0%nat, 0)] /\
+    pget 1%nat (prods s) = Some (PRet (RErr c_marshal)) /\ pget 2%nat (prods s) = Some (PRet (RErr c_storeerr)) /\
+    pget 3%nat (prods s) = Some (PInSelect 1) /\ 1 <= cap c /\ ~ In 3%nat (cancelled s) /\ ~ all_returned s.
+Proof.
+  exists fw_cfg, (final fw_cfg fw_trace).
+  split; [reflexivity|]. split; [reflexivity|]. split; [vm_compute; reflexivity|].
+  split; [unfold fw_trace; repeat constructor; simpl; intros; lia|].
+  split.
+  { intros l Hi. destruct l; try discriminate Hi; try (vm_compute; reflexivity);
+      try (destruct p as [|[|[|[|p]]]]; vm_compute; reflexivity);
+      try (destruct id as [|[|[|[|id]]]]; vm_compute; reflexivity);
+      try (destruct k as [|[|[|[|k]]]]; vm_compute; reflexivity). }
+  vm_compute. repeat split; try reflexivity; try tauto; try (intros; discriminate).
+  intros H. destruct (H 3%nat (PInSelect 1) eq_refl) as [r E]. discriminate.
+Qed.
